@@ -35,7 +35,7 @@ MANIFEST = {
             'values that sets each comparison mask is extracted and every reduction (all/any/first_set/movemask == 0) is checked per return '
             'path against the definition (ASCII 00-7F, Basic Latin, Latin1 00-FF, str-Latin1 00-C3, surrogates D800-DFFF; None iff no lane flagged, '
             'position from masks flagging exactly that set). Vendor intrinsic semantics (movemask, packus, deinterleave), core::simd, core '
-            'iterator semantics and simdutf8 == core::str are trusted.',
+            'iterator semantics and simdutf8 == core::str are trusted. (R-REPAIR) ensure_utf16_validity returns only on a path that has compared its scan position with buffer.len() with no constant offset, on the edge meaning reached.',
     'note': 'Trusted: rustc MIR and const evaluation, mirx, rule library, Unicode Table 3-7 as transcribed in rules/r_writers.py, simdutf8 == core::str validation.',
     'technique': 'exhaustive obligations over a const-evaluated table + expression-shape matching + exact interval extraction + bounds dataflow + path-sensitive abstract interpretation of the scanner automata (interval products per unit, distance-to-end zone, fixpoint invariants) on MIR',
 }
